@@ -2,4 +2,4 @@ From Coq Require Import Extraction ExtrOcamlBasic.
 From TK Require Import Chain_Model Chain_Spec Chain Uses Chain_Adapt_Model Chain_Adapt_Spec ChainAdapters.
 Extraction "c13_model.ml" chain_gen uses_gen run_method may_call declared uses find_method routes_ok
   sufficient_ok uses_ok dispatch_ok all_orders all_entries valid_chainb uses_before_F13 reach user_chain derefs_ok callback_classes_ok wrappers_ok downstream lookup
-  adapters_gen adapters_ok class_ok member_ok family_of callsites_ok.
+  adapters_gen adapters_ok class_ok member_ok family_of callsites_ok invoked_ok unresolved_count.
